@@ -208,7 +208,9 @@ def in_open_region(ctx, r):
 NPBIN = {"add": np.add, "sub": np.subtract, "mul": np.multiply, "max": np.maximum, "min": np.minimum,
          "eq": np.equal, "ne": np.not_equal, "lt": np.less, "le": np.less_equal, "gt": np.greater,
          "ge": np.greater_equal, "and": np.logical_and, "or": np.logical_or, "xor": np.logical_xor}
-NPRED = {"sum": np.sum, "prod": np.prod, "amax": np.amax, "amin": np.amin, "all": np.all, "any": np.any}
+NPRED = {"sum": np.sum, "prod": np.prod, "amax": np.amax, "amin": np.amin, "all": np.all, "any": np.any,
+         "mean": np.mean, "std": np.std, "var": np.var,
+         "logsumexp": lambda x, axis=None, keepdims=False: np.log(np.sum(np.exp(np.asarray(x, dtype=float)), axis=axis, keepdims=keepdims))}
 
 
 def _sizes_in(recipe, names):
@@ -831,12 +833,91 @@ def run_phi(ctx, n):
                  nontrivial_key=repr(gen_terms.describe(recipe)) if isinstance(val, Tensor) and val.inputs else None)
 
 
+ALL_RED = ["sum", "prod", "amax", "amin", "all", "any", "mean", "std", "var", "logsumexp"]
+
+
+def run_outred(ctx, quick):
+    """Every output-shape reduction op of ops/array.py (sum prod amax amin all any mean std var logsumexp), enumerated
+    over event shapes (), (1,), (2,), (1,1), (2,3) x 0-2 named inputs x axis None / int / tuple x keepdims, on data that
+    is NOT restricted to 0/1 (ints, reals, negatives, zeros), plus two-step reductions (x.sum().std(), …).  Reference:
+    the numpy aggregate applied row by row by the pointwise oracle `py_eval` (for a scalar row the one-element
+    collection: sum/prod/max/min/mean = x, var/std = 0, any/all = (x != 0)); values to 1e-12."""
+    rng = ctx.rng
+    vals = [-2.0, -1.5, -0.5, 0.0, 0.0, 0.25, 1.0, 2.0, 3.0]
+    shapes = [(), (1,), (2,), (1, 1), (2, 3)]
+    batches = [(), (("i", 3),), (("i", 2), ("j", 2))]
+    recipes = []
+    for shape in shapes:
+        rank = len(shape)
+        axes = [None] + ([0, -1, (0,)] if rank >= 1 else []) + ([1, (0, 1), (-1,), (1, 0)] if rank >= 2 else [])
+        for ins in batches:
+            full = tuple(s_ for _, s_ in ins) + shape
+            for op in ALL_RED:
+                for axis in axes:
+                    for keep in (False, True):
+                        if not quick or rng.random() < 0.55 or not shape:
+                            data = np.array([rng.choice(vals) for _ in range(int(np.prod(full)) if full else 1)],
+                                            dtype=np.float64).reshape(full)
+                            t = ("tensor", ins, "real", shape, data)
+                            recipes.append(("red", op, axis, keep, t))
+    # two-step reductions on batched tensors: the second acts on a scalar-valued tensor with named inputs
+    for ins in batches[1:]:
+        for shape in [(2,), (2, 3)]:
+            full = tuple(s_ for _, s_ in ins) + shape
+            for op1 in ("sum", "amax", "mean"):
+                for op2 in ALL_RED:
+                    data = np.array([rng.choice(vals) for _ in range(int(np.prod(full)))], dtype=np.float64).reshape(full)
+                    t = ("tensor", ins, "real", shape, data)
+                    recipes.append(("red", op2, None, rng.random() < 0.3, ("red", op1, None, False, t)))
+    ctx.count("outred:enumerated", len(recipes))
+    for recipe in recipes:
+        try:
+            syn = syntax(recipe)
+            ins = sorted((k, int(v.size)) for k, v in syn.inputs.items())
+            with np.errstate(all="ignore"):
+                want = py_table(recipe, ins, {})
+        except Exception as e:
+            ctx.count(f"outred:oracle-declined:{type(e).__name__}")
+            continue
+        with np.errstate(all="ignore"):
+            st, val = evaluate(recipe)
+        ctx.count(f"outred:op:{recipe[1]}")
+        if st != "value":
+            ctx.count(f"outred:impl-declined:{val.split(':')[0]}")
+            ctx.case()
+            continue
+        if not isinstance(val, (Tensor, Number)):
+            ctx.count("outred:impl-lazy")
+            ctx.case()
+            continue
+        try:
+            with np.errstate(all="ignore"):
+                got = ser.impl_values(val, ins)
+        except (KeyError, ValueError) as e:
+            ctx.fail("input", "C01.result-inputs", witness=gen_terms.describe(recipe), got=str(e)[:300],
+                     expected=str(ins), python=replay_python(recipe))
+            continue
+        ok = len(got) == len(want) and all(
+            list(a[0]) == list(b[0]) and len(a[1]) == len(b[1]) and
+            np.allclose(np.array(a[1], dtype=float), np.array(b[1], dtype=float), rtol=1e-12, atol=1e-12, equal_nan=True)
+            for a, b in zip(got, want))
+        if not ok:
+            ctx.fail("input", "C01.eager-ne-denote-reduction", witness=gen_terms.describe(recipe),
+                     expected=("numpy aggregate applied row by row: " + str([[float(x) for x in c_[1]] for c_ in want]))[:600],
+                     got=str([(c_[0], [float(x) for x in c_[1]]) for c_ in got])[:600],
+                     python=replay_python(recipe, None, [(c_[0], [float(x) for x in c_[1]]) for c_ in want], ins))
+            continue
+        ctx.case(sample={"stream": "outred", "expr": gen_terms.python_of(recipe)[:200]},
+                 nontrivial_key=repr(gen_terms.describe(recipe)) if val.inputs else None)
+
+
 def run_independent_echo(ctx, cases):
     """Three-way for Independent: the NT model `pevalIndependent` (Props/C01/Independent.lean: independent_sem) vs
-    Lean `denote` vs the eager result after binding the real input."""
+    Lean `denote` vs the eager result after binding the real input.  One driver call for the whole batch."""
     from fv.common import Q
+    todo, reqs = [], []
     for c in cases:
-        if c.recipe[0] != "independent" or not hasattr(c, "wire") or getattr(c, "syn", None) is None:
+        if c.recipe[0] != "independent" or getattr(c, "wire", None) is None or getattr(c, "syn", None) is None:
             continue
         _, fn, rv, bv, dv = c.recipe
         try:
@@ -846,14 +927,18 @@ def run_independent_echo(ctx, cases):
         except Exception:
             ctx.count("lazy:independent:beyond-model")
             continue
-        ans = ctx.driver.ask([f"C01 pevalInd {sx(wfn)} {sx(Q(rv))} {sx(Q(bv))} {sx(Q(dv))} {x.shape[0]} {sx(wv)}",
-                              f"C01 denote {sx(c.wire)} {sx(ser.ins_wire(c.ins))} {sx(ser.env_wire(c.env))}"])
+        todo.append(c)
+        reqs.append(f"C01 pevalInd {sx(wfn)} {sx(Q(rv))} {sx(Q(bv))} {sx(Q(dv))} {x.shape[0]} {sx(wv)}")
+        reqs.append(f"C01 denote {sx(c.wire)} {sx(ser.ins_wire(c.ins))} {sx(ser.env_wire(c.env))}")
+    answers = ctx.driver.ask(reqs)
+    for k, c in enumerate(todo):
+        a_pe, a_den = answers[2 * k], answers[2 * k + 1]
         try:
-            nt = nt_of_answer(ans[0])
+            nt = nt_of_answer(a_pe)
         except Exception:
-            ctx.infra_errors.append(f"driver pevalInd: {ans[0][:200]}")
+            ctx.infra_errors.append(f"driver pevalInd: {a_pe[:200]}")
             continue
-        model = ser.parse_table(ans[1])
+        model = ser.parse_table(a_den)
         if nt is None:
             ctx.count("lazy:independent:model-declined")
             continue
@@ -1069,6 +1154,7 @@ def correspond(ctx):
     run_cases(ctx, stream_slice_compose(ctx))
     run_cases(ctx, stream_getitem_enum(ctx))
     run_phi(ctx, 400 if quick else 8000)
+    run_outred(ctx, quick)
     stream_known_minmax(ctx)
     stream_known_reduce_andor(ctx)
     # fidelity percentages
